@@ -52,7 +52,9 @@ CANON = {
 	'query_cmd': [{'kind': 'query_sigfile', 'k': 7, 'prefix': 'AT'}, {'kind': 'query_sigfile', 'k': 6, 'prefix': 'AC'}],
 	'dist_cmd': [{'kind': 'dist', 'qs': (6, 'AT'), 'rs': (7, 'AT')}, {'kind': 'dist', 'qs': (6, 'AT'), 'use_db': True, 'kp': (7, 'AT')},
 	             {'kind': 'dist', 'qs': (7, 'AT'), 'use_db': True}, {'kind': 'dist', 'qs': (6, 'AT'), 'square': True, 'kp': (6, 'AC')},
-	             {'kind': 'dist', 'qs': (6, 'AT'), 'rs': (6, 'AT'), 'kp': (9, 'ATG')}],
+	             {'kind': 'dist', 'qs': (6, 'AT'), 'rs': (6, 'AT'), 'kp': (9, 'ATG')},
+	             {'kind': 'dist', 'qs': (6, 'AT'), 'rs': (6, 'AC'), 'kp': (6, 'AT')}, {'kind': 'dist', 'qs': (6, 'AT'), 'rs': (6, 'AC'), 'kp': (6, 'AC')},
+	             {'kind': 'dist', 'qs': (7, 'AT'), 'use_db': True, 'kp': (7, 'AT')}, {'kind': 'dist', 'qs': (6, 'AT'), 'rs': (7, 'AT'), 'kp': (6, 'AT')}],
 }
 
 
